@@ -545,6 +545,54 @@ class Exec:
             path.append(ix)
         return Ptr(base.region, path)
 
+    # ---- exact x87 80-bit model (opt-in: self.fp_exact)
+    def fp80_div(self, a, b):
+        """RNE_64(a / b) for exact operands: ('int', term) | ('ldc', Fraction) | ('ld', M, e)"""
+        from fractions import Fraction
+        from . import fprne
+        P = 64
+        def conc(v):
+            if isinstance(v, FPV) and isinstance(v.tag, tuple):
+                if v.tag[0] == 'ldc': return v.tag[1]
+                if v.tag[0] == 'int':
+                    x = v.tag[1]
+                    if isinstance(x, int): return Fraction(x)
+                    x = z3.simplify(x)
+                    if z3.is_int_value(x): return Fraction(x.as_long())
+            return None
+        ca, cb = conc(a), conc(b)
+        if cb is not None and cb == 0: raise Inconclusive('fp division by zero')
+        if ca is not None and cb is not None:
+            q = ca / cb
+            if q == 0: return FPV(('ldc', Fraction(0)))
+            import math
+            e = math.floor(math.log2(q))
+            while Fraction(2) ** e > q: e -= 1
+            while Fraction(2) ** (e + 1) <= q: e += 1
+            scale = Fraction(2) ** (P - 1 - e); m = q * scale; fl = m.numerator // m.denominator; rem = m - fl
+            if rem > Fraction(1, 2) or (rem == Fraction(1, 2) and fl % 2 == 1): fl += 1
+            return FPV(('ldc', Fraction(fl) / scale))
+        if not (isinstance(a, FPV) and isinstance(a.tag, tuple) and a.tag[0] == 'int' and cb is not None and cb > 0):
+            self.fresh_n += 1; return FPV('fdiv!%d' % self.fresh_n)          # outside the modelled fragment: havoc
+        A = a.tag[1] * cb.denominator; B = cb.numerator            # a / b = A / B with a symbolic non-negative integer A
+        if self.decide(a.tag[1] == 0): return FPV(('ldc', Fraction(0)))
+        # binade of A/B by forking (binary search over the exponent range of a 64-bit numerator)
+        lo, hi = -80, 80 + 64
+        while lo < hi:
+            mid = (lo + hi + 1) // 2
+            ge = (A >= (2 ** mid) * B) if mid >= 0 else (A * (2 ** (-mid)) >= B)
+            if self.decide(ge): lo = mid
+            else: hi = mid - 1
+        M = self.fresh('fpM', 80)
+        for c in fprne.rne_constraints(A, z3.IntVal(B), lo, P, M): self.assume(c)
+        return FPV(('ld', M, lo))
+
+    def fp80_trunc(self, v):
+        from . import fprne
+        if v.tag[0] == 'int': return v.tag[1]
+        if v.tag[0] == 'ldc': return int(v.tag[1])
+        return fprne.value_floor(v.tag[1], v.tag[2], 64)
+
     # ---- calls
     def call(self, fname, args):
         if fname in self.summaries:
@@ -770,15 +818,33 @@ class Exec:
         if op == 'unreachable':
             def f(env, prev): raise AssertFail('unreachable')
             return f
-        # ---- floating point: havoc
+        # ---- floating point: havoc by default; with self.fp_exact the x87 80-bit operations needed for integer/rate quotients are modelled
+        # exactly (uitofp of an unsigned 64-bit value is exact; fdiv is one IEEE round-to-nearest-even step at 64 significand bits encoded in
+        # LIA per binade, the binade chosen by forking; fptoui truncates)
         if op in ('fadd', 'fsub', 'fmul', 'fdiv', 'frem', 'fneg', 'fpext', 'fptrunc', 'uitofp', 'sitofp'):
+            mm = re.match(r'(\w+)( nsw| nuw| exact| fast)* (.+?) ([^ ,]+)(?:, ([^ ,]+))?(?: to (.+))?$', t)
+            if getattr(self, 'fp_exact', False) and mm and op == 'uitofp' and mm.group(6) == 'x86_fp80':
+                o = D(mm.group(3), mm.group(4))
+                def f(env, prev):
+                    env[dest] = FPV(('int', o(env)))
+                return f
+            if getattr(self, 'fp_exact', False) and mm and op == 'fdiv' and mm.group(3) == 'x86_fp80':
+                oa, ob = D('x86_fp80', mm.group(4)), D('x86_fp80', mm.group(5))
+                def f(env, prev):
+                    env[dest] = self.fp80_div(oa(env), ob(env))
+                return f
             def f(env, prev):
                 self.fresh_n += 1; env[dest] = FPV('%s!%d' % (op, self.fresh_n))
             return f
         if op in ('fptoui', 'fptosi'):
             m = re.match(r'\w+ (.+?) ([^ ]+) to (.+)$', t)
             toT = parse_type(m.group(3))
+            osrc = D(m.group(1), m.group(2)) if getattr(self, 'fp_exact', False) and m.group(1) == 'x86_fp80' else None
             def f(env, prev):
+                if osrc is not None:
+                    v = osrc(env)
+                    if isinstance(v, FPV) and isinstance(v.tag, tuple) and v.tag[0] in ('int', 'ld', 'ldc'):
+                        env[dest] = self.fp80_trunc(v); return
                 env[dest] = self.fresh('fp2int', toT.bits)
             return f
         if op == 'fcmp':
